@@ -125,12 +125,15 @@ def gen_argspec(rng, ndeps):
     return items
 
 
-def gen_dag(rng, n, p_data=0.25, p_alias=0.1, max_deps=3, keys=None, style=None, missing=False):
+def gen_dag(rng, n, p_data=0.25, p_alias=0.1, max_deps=3, keys=None, style=None, missing=False, shape="chain"):
+    """shape: 'chain' prefers recent nodes as dependencies (deep graphs), 'wide' picks dependencies
+    uniformly and has many dependency-free tasks (many tasks ready/running at once)"""
     nodes = []
+    p_free = 0.15 if shape == "chain" else 0.6
     for i in range(n):
         r = rng.random()
         if i == 0 or r < p_data:
-            if i > 0 and rng.random() < 0.15:
+            if rng.random() < p_free:
                 nodes.append(["t", [], gen_argspec(rng, 0)])       # a task without dependencies
             else:
                 nodes.append(["d", rng.choice([0, 1, 2, 3, 5, 8, 13, 21, 34, 55, 89])])
@@ -142,7 +145,7 @@ def gen_dag(rng, n, p_data=0.25, p_alias=0.1, max_deps=3, keys=None, style=None,
             pool = list(range(i))
             deps = []
             while len(deps) < k:
-                d = pool[-1 - min(int(rng.expovariate(0.6)), len(pool) - 1)]
+                d = pool[-1 - min(int(rng.expovariate(0.6)), len(pool) - 1)] if shape == "chain" else rng.choice(pool)
                 if d not in deps:
                     deps.append(d)
             nodes.append(["t", deps, gen_argspec(rng, len(deps))])
@@ -271,8 +274,14 @@ def map_req(req, f):
 
 
 def gen_req(rng, n):
-    """a requested key or nested list of keys (ids)"""
-    ids = rng.sample(range(n), rng.randint(1, min(n, 4)))
+    """a requested key or nested list of keys (ids); later nodes (the sinks) are preferred so that most
+    of the graph is needed"""
+    k = rng.randint(1, min(n, 4))
+    ids = []
+    while len(ids) < k:
+        i = n - 1 - min(int(rng.expovariate(0.5)), n - 1) if rng.random() < 0.7 else rng.randrange(n)
+        if i not in ids:
+            ids.append(i)
     if rng.random() < 0.15:
         ids.append(ids[0])                         # the same key requested twice
     r = rng.random()
@@ -608,11 +617,17 @@ def same_nesting(req, res):
 
 
 def gen_trace_input(rng, max_n=9, fail_p=0.0, missing_p=0.0):
-    n = rng.randint(1, max_n)
-    dag = gen_dag(rng, n, p_data=rng.choice([0.1, 0.25, 0.5]), p_alias=rng.choice([0.0, 0.1, 0.2]),
-                  missing=rng.random() < missing_p)
+    n = rng.randint(max(1, max_n // 3), max_n)
+    dag = gen_dag(rng, n, p_data=rng.choice([0.05, 0.15, 0.3]), p_alias=rng.choice([0.0, 0.1, 0.2]),
+                  missing=rng.random() < missing_p, shape=rng.choice(["chain", "wide", "wide"]))
     nn = len(dag["nodes"])
     req = gen_req(rng, nn)
+    if rng.random() < 0.45:
+        # request every sink: the whole graph is needed and many tasks are ready at the same time
+        used = {d for i in range(nn) for d in node_deps(dag, i)}
+        sinks = [i for i in range(nn) if i not in used and dag["nodes"][i][0] != "x"]
+        rng.shuffle(sinks)
+        req = sinks[:8] or req
     if any(dag["nodes"][i][0] == "x" for i in flatten_req(req)):
         req = [i for i in flatten_req(req) if dag["nodes"][i][0] != "x"] or 0
     fails = {}
